@@ -193,6 +193,69 @@ theorem filter_chain_keeps_order (inputs : Inputs) (filters : List (List Rule)) 
       simp only [hg] at h
       exact (ih ts' h).trans (filter_keeps_order f inputs targets ts' hg).2
 
+/-- the scheduler caches filter objects by the NAME of their configuration (extracted from `_get_binding_filter`) -/
+theorem filters_looked_up_by_name (name type : Nat) : filterCacheKey name type = name := rfl
+
+/-- the cache agrees with a universe `U` of filter configurations: whatever is stored under a name is that
+    configuration's own rule list -/
+def EnvOk (U : List FilterCfg) (env : FilterEnv) : Prop :=
+  ∀ c ∈ U, ∀ r, envGet env c.name = some r → r = c.rules
+
+theorem envGet_append (env : FilterEnv) (k : Nat) (v : List Rule) (x : Nat) :
+    envGet (env ++ [(k, v)]) x = match envGet env x with
+      | some r => some r
+      | none => if k = x then some v else none := by
+  induction env with
+  | nil => simp [envGet]
+  | cons a rest ih =>
+    obtain ⟨k', r'⟩ := a
+    by_cases h : k' = x
+    · simp [envGet, h]
+    · simp only [List.cons_append, envGet, h, if_false, ih]
+
+/-- **every job is filtered by its own filters, on a scheduler that has already served other jobs**: if configurations
+    with the same name have the same rules (`U`) and the cache agrees with `U`, the filter loop of `schedule()` computes
+    exactly the chain of the job's own filters, and the cache still agrees with `U` afterwards -/
+theorem schedule_uses_own_filters (U : List FilterCfg) (hU : ∀ c ∈ U, ∀ c' ∈ U, c.name = c'.name → c.rules = c'.rules)
+    (inputs : Inputs) (cfgs : List FilterCfg) (hsub : ∀ c ∈ cfgs, c ∈ U) (env : FilterEnv) (henv : EnvOk U env)
+    (ts : List Target) :
+    (scheduleFilters inputs env cfgs ts).2 = foldFilters inputs (cfgs.map (·.rules)) ts ∧
+    EnvOk U (scheduleFilters inputs env cfgs ts).1 := by
+  induction cfgs generalizing env ts with
+  | nil => exact ⟨rfl, henv⟩
+  | cons c cs ih =>
+    have hc : c ∈ U := hsub c (List.mem_cons_self ..)
+    have hrules : (getBindingFilter env c).2 = c.rules := by
+      simp only [getBindingFilter, filters_looked_up_by_name]
+      cases h : envGet env c.name with
+      | none => rfl
+      | some r => exact henv c hc r h
+    have henv' : EnvOk U (getBindingFilter env c).1 := by
+      simp only [getBindingFilter, filters_looked_up_by_name]
+      cases h : envGet env c.name with
+      | some r => exact henv
+      | none =>
+        intro c' hc' r hr
+        simp only [envGet_append] at hr
+        cases h' : envGet env c'.name with
+        | some r' => simp only [h'] at hr; cases hr; exact henv c' hc' _ h'
+        | none =>
+          simp only [h'] at hr
+          by_cases e : c.name = c'.name
+          · simp only [e, if_true, Option.some.injEq] at hr
+            rw [← hr]; exact hU c hc c' hc' e
+          · simp [e] at hr
+    simp only [scheduleFilters, List.map_cons, foldFilters, hrules]
+    cases hg : getTargets c.rules inputs ts with
+    | error e => exact ⟨rfl, henv'⟩
+    | ok ts' => exact ih (fun x hx => hsub x (List.mem_cons_of_mem _ hx)) _ henv' ts'
+
+/-- non-vacuity: two differently named matching filters on one scheduler, used by two jobs in both orders -/
+example : (scheduleFilters [] [] [⟨7, 1, [⟨1, none, []⟩]⟩, ⟨8, 1, [⟨2, none, []⟩]⟩] [⟨0, 1, none⟩, ⟨1, 2, none⟩]).2
+    = .error .noMatch := rfl
+example : (scheduleFilters [] [(7, [⟨1, none, []⟩])] [⟨8, 1, [⟨2, none, []⟩]⟩] [⟨0, 1, none⟩, ⟨1, 2, none⟩]).2
+    = .ok [⟨1, 2, none⟩] := rfl
+
 /-- **the first admissible target wins**: `schedule()` starts one task per surviving target in list order
     (`tasksInTargetOrder`), asyncio runs them first-come first-served and each pass holds the scheduler lock, so the
     first passes happen in target order on the state `s` the request found: the job goes to the first target of the
